@@ -2,7 +2,7 @@
    Repository.ParseReference and the URL builders of registry/remote/url.go.
    The regular expressions come from Generated/Regexes.v (re-translated from the
    Go source on every run).  The registry check (net/url) is a parameter. *)
-From Oras Require Import Base.Prelude Base.Regex Generated.GC20.
+From Oras Require Import Base.Prelude Base.Regex Generated.GC20 Model.NetURL.
 
 Record reference := mkRef { r_registry : str; r_repository : str; r_reference : str }.
 
@@ -88,6 +88,11 @@ Section WithRegistry.
     | _ => if contains c_colon rf then valid_digest rf else valid_tag rf
     end.
 
+  (* Reference.Validate: registry, repository, then ValidateReference (empty, or digest when it
+     contains a colon, else tag) *)
+  Definition validate (r : reference) : bool :=
+    valid_registry (r_registry r) && valid_repository (r_repository r) && validate_reference (r_reference r).
+
   (* Repository.ParseReference with base reference (breg, brepo).  [strict] = the code after the
      fix "rejects a malformed path in front of '@digest'": what precedes the '@' in the fallback
      branch must not contain a slash.  [strict = false] is the code before that fix, kept for the
@@ -130,6 +135,12 @@ Definition url_taglist (plain : bool) (r : reference) : str :=
   url_repo_base plain r ++ b "/tags/list".
 Definition url_upload (plain : bool) (r : reference) : str :=
   url_repo_base plain r ++ b "/blobs/uploads/".
+(* buildReferrersURL with an artifactType filter: "?" + url.Values{artifactType}.Encode() *)
+Definition url_referrers_at (plain : bool) (r : reference) (at_ : str) : str :=
+  url_referrers plain r ++ match at_ with [] => [] | _ => b "?artifactType=" ++ query_escape at_ end.
+(* buildRepositoryBlobMountURL: digest and source repository are printed as they are *)
+Definition url_mount (plain : bool) (r : reference) (d from : str) : str :=
+  url_upload plain r ++ b "?mount=" ++ d ++ b "&from=" ++ from.
 Definition url_base (plain : bool) (r : reference) : str :=
   scheme plain ++ b "://" ++ host_of (r_registry r) ++ b "/v2/".
 Definition url_catalog (plain : bool) (r : reference) : str :=
@@ -203,24 +214,26 @@ Definition registry_verdict (reg : str) : option bool :=
            end
   end.
 
-(* three-valued parse for the correspondence check *)
+(* three-valued parse for the correspondence check: the registry check is the model of net/url
+   (Model/NetURL.v); unjudged only where the answer depends on netip.ParseAddr *)
 Inductive verdict := VOk (r : reference) | VErr | VUnjudged.
+Definition go_vr : str -> bool := go_registry.
 Definition parse_verdict (avail : str -> bool) (s : str) : verdict :=
   match split_first c_slash s with
   | None => VErr
   | Some (reg, _) =>
-      match registry_verdict reg with
+      match go_registry_verdict reg with
       | None => VUnjudged
-      | Some v => match parse avail (fun _ => v) s with Some r => VOk r | None => VErr end
+      | Some _ => match parse avail go_vr s with Some r => VOk r | None => VErr end
       end
   end.
 
 Definition repo_parse_verdict (avail : str -> bool) (breg brepo s : str) : verdict :=
   match split_first c_slash s with
-  | None => match repo_parse avail (fun _ => false) breg brepo s with Some r => VOk r | None => VErr end
+  | None => match repo_parse avail go_vr breg brepo s with Some r => VOk r | None => VErr end
   | Some (reg, _) =>
-      match registry_verdict reg with
+      match go_registry_verdict reg with
       | None => VUnjudged
-      | Some v => match repo_parse avail (fun _ => v) breg brepo s with Some r => VOk r | None => VErr end
+      | Some _ => match repo_parse avail go_vr breg brepo s with Some r => VOk r | None => VErr end
       end
   end.
